@@ -403,12 +403,45 @@ def run_many(case):
     return result(1, ['many:%s:%s' % ('ge32' if len(args) >= 32 else 'lt32', kind(top))], fails)
 
 
+# --- huge magnitudes in array arguments: partial results that overflow with either or both signs ---------------------------
+HUGE_FN = ['MMULT', 'SUMPRODUCT', 'SUM', 'PRODUCT', 'SUMSQ', 'AVERAGE', 'STDEV', 'VAR', 'STDEVP', 'VARP', 'MAX', 'MIN', 'MEDIAN', 'DEVSQ', 'GEOMEAN', 'HARMEAN',
+           'SUMX2MY2', 'SUMX2PY2', 'SUMXMY2', 'CORREL', 'SLOPE', 'INTERCEPT', 'NPV', 'IRR']
+HUGE_ARR = ['{1E+200,1E+200}', '{1E+200;-1E+200}', '{1E+200;1E+200}', '{1E+200,-1E+200}', '{1E+308,1E+308}', '{1E+308;-1E+308}', '{-1E+308,-1E+308}', '{1E-200,1E-200}',
+            '{1E+200,1E-200}', '{0,1E+308}']
+
+
+def huge_cases(functions):
+    for fn in HUGE_FN:
+        if fn not in functions:
+            continue
+        for a in HUGE_ARR:
+            yield ['huge', fn, a, None]
+            for b in HUGE_ARR:
+                yield ['huge', fn, a, b]
+
+
+def run_huge(case):
+    _, fn, a, b = case
+    f = '=%s(%s)' % (fn, a if b is None else '%s,%s' % (a, b))
+    got = evaluate(f, {}, 'A1:B2')
+    fields = dict(func=fn, base=fn, nargs=1 if b is None else 2, mode='huge', formula=f, args='%s|%s' % (a, b))
+    if isinstance(got, tuple):
+        if got[1] in ('exc:BroadcastError',):
+            return result(1, ['huge:accepted-broadcast-escape'])
+        return result(1, ['huge:%s' % got[1]], [Fail('missing-output' if got[1] == 'missing-output' else 'raises', got=got[1], exp='an Excel value', gotk=got[1], **fields)])
+    bad = sorted({x[1] for row in got for x in row if x[0] == 'BAD'})
+    fails = [Fail('ill-formed', got=bad[0], exp='finite number, text, logical, error or blank', gotk=bad[0], **fields)] if bad else []
+    return result(1, ['huge:%s' % kind(got[0][0])], fails)
+
+
 _run_case_functions = run_case
 
 
 def run_case(case):
     if case and case[0] == 'many':
         return run_many(case)
+    if case and case[0] == 'huge':
+        return run_huge(case)
     return _run_case_functions(case)
 
 
@@ -427,6 +460,7 @@ def run(ctx):
     pl, skipped = plan(ctx.tier, functions)
     ctx.explore(run_case, (c for p in pl for c in cases_of(*p)), chunksize=128, label='function x count x tuples')
     ctx.explore(run_case, many_cases(), chunksize=16, label='calls with 31-40 arguments')
+    ctx.explore(run_case, huge_cases(functions), chunksize=16, label='huge magnitudes in array arguments')
     return {'oracle_audit': au, 'functions': len(functions), 'function_count_pairs': len({(p[0], p[1]) for p in pl}), 'pool_size': len(A.POOL),
             'full_product_up_to_arity': 3 if ctx.tier == 'thorough' else 2, 'deviation_bound': 3 if ctx.tier == 'thorough' else 2,
             'variadic_cap': 'min+3', 'unbindable_counts': skipped,
